@@ -16,7 +16,7 @@ def check(R, tier):
     R.fallback_kinds = {'rollback'}
     I = R.interp('tough'); install_world(I)
     RT = variants('RoleType'); TS, SN = RT.index('Timestamp'), RT.index('Snapshot')
-    R.bounds.update({'key list lengths (timestamp, snapshot)': '1 and 2 on either side of the rotation', 'root hops': 1, 'stored versions': 'any u64 (up to 2^64-1)',
+    R.bounds.update({'key list lengths (timestamp, snapshot)': '1 and 2 on either side of the rotation', 'root hops': '1 (all key-list shapes) and 2 (lists of length 1; thorough: also a list extended at the first hop)', 'stored versions': 'any u64 (up to 2^64-1)',
                      'history': 'cycle 1 trusts the shipped root; cycle 2 sees one newer root'})
     R.assumptions += ['V = W(key set, threshold, doc): a stored document may or may not still verify under the new root (overlapping keys)', 'clock disabled (C04)']
     combos = [((1, 1), (1, 1)), ((1, 1), (2, 1)), ((2, 1), (1, 1)), ((1, 1), (1, 2)), ((1, 2), (1, 1)), ((2, 2), (2, 2))]
@@ -47,6 +47,27 @@ def check(R, tier):
             R.obligation(f'{label}: targets.json is never deleted by the rotation step', p.pc, z3.BoolVal(not any(u.endswith('targets.json') for u in un)), group='targets-kept')
         R.reach_any(f'{label}: hop adopted with a changed list', [p.pc for p in paths if p.ok and z3.eq(doc_id(p.payload), P.hop[0])])
         R.samples.append({'key lists': [kl_ship, kl_hop], 'paths': len(paths)})
+    # ---- two hops in one walk: what counts is the FINAL root's lists against the ones trusted before the walk (a rotation at the first hop
+    #      followed by a plain re-issue is still a rotation; rotating away and back within one walk is not)
+    for kls in ([((1, 1), (1, 1), (1, 1))] if tier == 'quick' else [((1, 1), (1, 1), (1, 1)), ((1, 1), (2, 1), (2, 1)), ((1, 1), (2, 1), (1, 1))]):
+        P = root_params(2, 1); P['lkt_present'] = z3.BoolVal(False); P['safe'] = z3.BoolVal(False); P['join_fails'] = z3.BoolVal(False)
+        paths = summarize_load_root(I, P, klens=kls); R.check_interp_clean(I, f'load_root{kls}')
+        label = f'load_root[two hops, key lists {kls}]'
+        for p in paths:
+            if not p.ok: continue
+            R.paths += 1
+            fin = doc_id(p.payload)
+            which = 2 if z3.eq(fin, P.hop[1]) else (1 if z3.eq(fin, P.hop[0]) else 0)
+            klf = kls[which]
+            rot = z3.Or(lists_differ(key_list(P.shipped, TS, kls[0][0]), key_list(fin, TS, klf[0])), lists_differ(key_list(P.shipped, SN, kls[0][1]), key_list(fin, SN, klf[1])))
+            un = [e[1] for e in p.ev('fs.unlink')]
+            pres_ts, _ = p.fs.get('/ds/timestamp.json', (z3.BoolVal(False), None)); pres_sn, _ = p.fs.get('/ds/snapshot.json', (z3.BoolVal(False), None))
+            def dec2(m, kls=kls, which=which): return {'kind': 'rotation-2-hops', 'key_list_lengths': kls, 'final_root_is_hop': which}
+            R.obligation(f'{label}: final key lists differ from the ones trusted before the walk => no stored timestamp.json / snapshot.json survives', p.pc,
+                         z3.Implies(rot, z3.And(z3.Not(pres_ts), z3.Not(pres_sn))), decode=dec2, group='rotation-deletes/2-hops')
+            R.obligation(f'{label}: final key lists equal the ones trusted before the walk => stored files are left alone', p.pc, z3.Implies(z3.Not(rot), z3.BoolVal(not un)), decode=dec2, group='no-rotation-keeps/2-hops')
+        R.reach_any(f'{label}: both hops adopted', [p.pc for p in paths if p.ok and z3.eq(doc_id(p.payload), P.hop[1])])
+        R.samples.append({'key lists (two hops)': kls, 'paths': len(paths)})
     # ---- end to end: after a rotation the fast-forwarded stored versions do not lock the client out
     sums = build_summaries(I, hops=1); R.check_interp_clean(I, 'summaries')
     shipped, cyc, f = C03.build_history(sums, 2, 'r')
@@ -82,10 +103,28 @@ def finalize(R, sums):
     for a, b in MENU:
         attempt({'ts_ship': a, 'ts_hop': b, 'sn_ship': [1], 'sn_hop': [1]}, 'menu')
         attempt({'ts_ship': [1], 'ts_hop': [1], 'sn_ship': a, 'sn_hop': b}, 'menu')
+    # two hops in one walk: rotation at the first hop, plain re-issue at the second (and the mirror case: no rotation at all over two hops)
+    for ts_mid, ts_fin, what in (([1, 2], [1, 2], 'root v2 extends the timestamp key list, root v3 re-issues it unchanged'), ([1], [1], 'roots v2 and v3 keep the online keys')):
+        def root3(v, ts):
+            return {'version': v, 'consistent': False, 'table': sorted(set([0, 13, 7] + ts)), 'signers': [0],
+                    'roles': {'root': {'keys': [0], 'thr': 1}, 'timestamp': {'keys': ts, 'thr': 1}, 'snapshot': {'keys': [7], 'thr': 1}, 'targets': {'keys': [13], 'thr': 1}}}
+        scen = {'nkeys': 14, 'roots': [root3(1, [1]), root3(2, ts_mid), root3(3, ts_fin)], 'cycles': [
+            {'shipped': 0, 'serve_roots': {}, 'safe': False, 'timestamp': {'version': 2 ** 63, 'signers': [1]}, 'snapshot': {'version': 2 ** 63, 'signers': [7]}, 'targets': {'version': 1, 'signers': [13]}},
+            {'shipped': 0, 'serve_roots': {'2': 1, '3': 2}, 'safe': False, 'timestamp': {'version': 1, 'signers': [1]}, 'snapshot': {'version': 1, 'signers': [7]}, 'targets': {'version': 1, 'signers': [13]}}]}
+        real = R.replay('history', scen); c1, c2 = real['cycles']
+        R.differential['scenarios'] += 1
+        changed = ts_fin != [1]
+        if c1['ok'] and changed and not c2['ok'] and c2.get('err') == 'OlderMetadata' and not reported:
+            R.report_violation(f'two root updates in one walk ({what}): the online key list changed, yet the fast-forwarded stored versions still lock the client out: {c2.get("msg", "")[:140]}', scen); reported = True
+        elif c1['ok'] and not changed and c2['ok'] and not reported:
+            R.report_violation(f'two root updates in one walk ({what}): stored timestamp/snapshot no longer protect (version 1 accepted after 2^63)', scen); reported = True
+        else: R.differential['agree'] += 1
     unrepro = []
     for cx in R.counterexamples:
         sc = cx.get('scenario')
-        if cx['group'] in ('rotation-deletes', 'no-rotation-keeps') and sc:
+        if cx['group'].endswith('/2-hops'):
+            if not reported: unrepro.append(cx)
+        elif cx['group'] in ('rotation-deletes', 'no-rotation-keeps') and sc:
             r = attempt(sc, cx['group'])
             if r is False: unrepro.append(cx)
         else: unrepro.append(cx)
